@@ -954,7 +954,7 @@ impl Prioritize {
                             // Update the flow control
                             tracing::trace_span!("updating stream flow").in_scope(|| {
                                 #[cfg(feature = "verif-hooks")]
-                                crate::verif::ev("prio.pop_data", || {
+                                let _verif = crate::verif::enter("prio.pop_data", || {
                                     vec![
                                         u32::from(stream.id) as i64,
                                         stream.state.is_send_streaming() as i64,
